@@ -98,10 +98,13 @@ ASSUMPTIONS = ['main flow well nested relative to the blocks the application HOL
                'by Disp.cstep and compared with the implementation like every other case - obs_equal is plain equality); its answer is data; it may '
                're-arm the alarm; a balanced block/unblock pair inside the callback - answer 5 - is invisible to the model; a callback that calls '
                'unblockSignals() without a matching block of its own is outside the model',
-               'NOT machine-checked for the answer-4 traces: that the states of a harness trace whose fixed flow is well nested only from depth 1 '
-               '(the flow releases the callback-taken block) are states of a reach / oreach history - they are, with the plan field [ops] holding '
-               'the part of the flow that is well nested so far (reach_ops re-plans; [ops] is ghost: no step of an activation reads it), but '
-               'c18_run_reachable / c18_os_run_reachable are stated for flows well nested from 0 only',
+               'answer-4 traces (fixed flow not well nested from 0: it releases callback-taken blocks): machine-checked '
+               '(c18_os_case_reachable_cb / c18_os_run_reachable_cb / c18_run_reachable_cb, ProofsRunCb.v) that every state a decoded OS-level case '
+               'passes through is, with the ghost plan emptied (ops of the core, oflow of the registry - nothing else), a state of an oreach / reach '
+               'history that re-plans to each main-flow operation when it is executed - PROVIDED wn_case: every operation the main flow executes is '
+               'legal at the depth held then (an unblockSignals finds a block of the main flow or a callback-taken one); "bal k at the first '
+               'main-flow operation after k callback-taken blocks" implies it (c18_os_bal_k_is_well_nested). Cases that violate wn_case (a release '
+               'without a block) are outside every theorem, as before',
                'the Windows alarm thread (a second thread calling processSignal) is outside the model',
                'when arrivals interrupt one another between the test and the write of pending_, the later write wins '
                '(the property text allows "the first" only for non-interrupting arrivals); after a callback answered stop '
